@@ -181,6 +181,17 @@ def apply_step(p, step):
         elif kind == "delslice":
             i, j = sorted((step[1] % (n + 1), step[2] % (n + 1)))
             del p[i:j]
+        elif kind in ("delstep", "setstep"):
+            # extended slices: any step, open or closed ends, forwards or backwards
+            a = None if step[1] is None else step[1] % (n + 1)
+            b = None if step[2] is None else step[2] % (n + 1)
+            sl = slice(a, b, step[3])
+            if kind == "delstep":
+                del p[sl]
+            else:
+                m = len(range(*sl.indices(n)))
+                specs = step[4] or [("simple", "NONE")]
+                p[sl] = [make_op(specs[t % len(specs)]) for t in range(m)]
         elif kind == "append":
             p.append(make_op(step[1]))
         elif kind == "extend":
@@ -429,6 +440,15 @@ def _machine(res, holder):
         @rule(i=idx, j=idx)
         def delslice(self, i, j):
             self._edit(("delslice", i, j))
+
+        @rule(i=st.one_of(st.none(), idx), j=st.one_of(st.none(), idx), k=st.sampled_from([-3, -2, -1, 2, 3]))
+        def delstep(self, i, j, k):
+            self._edit(("delstep", i, j, k))
+
+        @rule(i=st.one_of(st.none(), idx), j=st.one_of(st.none(), idx), k=st.sampled_from([-3, -2, -1, 2, 3]),
+              ss=st.lists(specs, min_size=1, max_size=3))
+        def setstep(self, i, j, k, ss):
+            self._edit(("setstep", i, j, k, ss))
 
         @rule(s=specs)
         def append(self, s):
